@@ -383,6 +383,26 @@ static void do_encode_case(vp_ctx_t* c, uint64_t idx)
             Avtp_Vss_Pad((Avtp_Vss_t*)m.p, (uint16_t)pn);
             check_msg(c, &m, "encode", "pad-after-encode", dtn, v.P, v.D);
         }
+        /* the caller's value is an input: its bytes must be what they were (an encoder that converts the caller's array
+         * in place - even if it converts it back afterwards on most paths - shows here), and encoding the same object a
+         * second time must give the same message */
+        if (src && v.dt->kind != VK_RESERVED) {
+            size_t sn = v.dt->kind == VK_ARRAY ? (size_t)v.nelem * v.dt->esize : v.nbytes;
+            int changed = 0; size_t at = 0;
+            if (v.dt->kind == VK_ARRAY) { for (uint32_t i = 0; i < v.nelem && !changed; i++) if (el_load(src, i, v.dt->esize) != (v.elems[i] & emask(v.dt->esize))) { changed = 1; at = (size_t)i * v.dt->esize; } }
+            else { for (size_t i = 0; i < sn && !changed; i++) if (src[i] != v.bytes[i]) { changed = 1; at = i; } }
+            c->evals++;
+            if (changed && vp_viol(c, "encode", "set-data", dtn, "source-data-modified", 0, 0)) {
+                o_s(c, "{\"datatype\":\""); o_s(c, dtn); o_s(c, "\",\"source_bytes\":"); o_u(c, sn); o_s(c, ",\"first_changed_offset\":"); o_u(c, at); o_s(c, "}"); o_end(c);
+            }
+            if (!changed) {
+                vp_curop("vss-set-data-again", dtn, v.mode ? "static" : "interop", v.D);
+                vp_call(c);
+                Avtp_Vss_SetVssData((Avtp_Vss_t*)m.p, (VssData_t*)(O.mem + O_DATA));
+                check_msg(c, &m, "encode", "value-second-encode-of-same-object", dtn, v.P, v.D);
+                check_obj(c, "encode", "set-data-again", dtn, "source-object");
+            }
+        }
         if (!bad && (idx % 37) == 5) sample_case(c, "encode", &v, m.p, total);
         if (src) rfree(src, g_src_kk);
     } else g_nontrivial++;
@@ -760,6 +780,14 @@ static void do_strarr_case(vp_ctx_t* c, uint64_t idx)
     }
     if (!blk_ok(packed_blk, total + poff) && vp_viol(c, "strarr", "serialize", "wrote-beyond-output", 0, 0, 0)) { o_s(c, "{\"strings\":"); o_u(c, n); o_s(c, "}"); o_end(c); }
     check_obj(c, "strarr", "serialize", "objects", n > 255 ? ">255" : "<=255");
+    /* the strings handed in are inputs: packing them again with the reference must give the same bytes */
+    if (total) {
+        uint8_t* ref2 = vp_heap(total);
+        vssref_pack_strings(ref2, (const uint8_t* const*)strs, lens, n);
+        c->evals++;
+        if (memcmp(ref2, ref, total) != 0 && vp_viol(c, "strarr", "serialize", "source-strings-modified", 0, 0, 0)) { o_s(c, "{\"strings\":"); o_u(c, n); o_s(c, "}"); o_end(c); }
+        vp_heap_free(ref2);
+    }
 
     /* --- count and unpack the reference-packed array (exact block: over-reads trap under ASan) */
     size_t soff = (size_t)((idx / 4) % 4);
@@ -860,6 +888,9 @@ static void do_strarr_case(vp_ctx_t* c, uint64_t idx)
         o_s(c, ",\"packed_prefix\":\""); o_hex(c, packed, total > 32 ? 32 : total); o_s(c, "\"}"); o_end(c);
     }
     g_nontrivial++;
+    /* counting and unpacking only read the packed array */
+    c->evals++;
+    if (total && memcmp(src, ref, total) != 0 && vp_viol(c, "strarr", "deserialize", "packed-source-modified", 0, 0, 0)) { o_s(c, "{\"strings\":"); o_u(c, n); o_s(c, ",\"total\":"); o_u(c, total); o_s(c, "}"); o_end(c); }
     vp_heap_free(src_blk); vp_heap_free(packed_blk); vp_heap_free(ref);
     for (uint32_t i = 0; i < n; i++) vp_heap_free(strs[i]);
 }
